@@ -1,5 +1,161 @@
-(* C15 placeholder; theorems follow *)
+(* C15 — multipart parsing is exact, segmentation-independent and always terminates.
+   Only statements here; proofs live in Multipart/ScanProofs.v and Multipart/ParserProofs.v.
+   The model (Multipart/Buffer.v, Scan.v, Parser.v) has a switch at each of the three places
+   repaired by fixes/F24.patch, fixes/F7.patch, fixes/F25.patch; [false] = repaired code. *)
 From AV Require Import Lib.Base.
+From AV Require Import Gen.Consts.
 From AV Require Import Multipart.Buffer.
 From AV Require Import Multipart.Scan.
 From AV Require Import Multipart.Parser.
+From AV Require Import Multipart.ScanProofs.
+From AV Require Import Multipart.ParserProofs.
+
+(* The parse buffer never exceeds buffer_limit: for every header oracle, every code variant,
+   every upstream script, every limit and every sequence of polls by the consumer
+   (Multipart::poll_next / Field::poll_next in any order). *)
+Theorem C15_buffer_bound :
+  forall (hdr : bytes -> hres) (o24 o7 o25 : bool) (bnd : bytes) (script : list ev) (limit : N)
+         (ops : list op),
+  lenN (p_buf (m_pb (fold_left (step hdr o24 o7 o25) ops (mp_new bnd script limit)))) <= limit.
+Proof.
+  intros. destruct (buffer_bound_all hdr o24 o7 o25 ops (mp_new bnd script limit)) as [B L].
+  - unfold bounded, lenN. cbn. lia.
+  - unfold bounded in B. rewrite L in B. exact B.
+Qed.
+
+(* ... in particular for the default limit read from payload.rs *)
+Theorem C15_buffer_bound_default :
+  forall hdr o24 o7 o25 bnd script ops,
+  lenN (p_buf (m_pb (fold_left (step hdr o24 o7 o25) ops
+                               (mp_new bnd script MULTIPART_DEFAULT_BUFFER_LIMIT)))) <= 65536.
+Proof. intros. apply (C15_buffer_bound hdr o24 o7 o25 bnd script MULTIPART_DEFAULT_BUFFER_LIMIT ops). Qed.
+
+(* One poll of the delimiter scanner (InnerField::read_stream).  The buffer holds whatever has
+   arrived of  c ++ CRLF "--" boundary ++ rest , c = the content still to deliver, containing CR,
+   LF, dashes and boundary look-alikes at will but no delimiter and no bare-CR look-alike
+   ([clean], the F7b class is excluded).  Then: data handed out is a NON-EMPTY PREFIX OF c,
+   removed from the front of the buffer — never a byte of the delimiter; end-of-field is
+   reported only when c is empty and the buffer begins with the delimiter; an error only at
+   eof; Pending only before eof; nothing is consumed in the last three cases. *)
+Theorem C15_scan_one_poll_exact : forall (p : pb) (bnd c rest : bytes),
+  is_prefix (p_buf p) (c ++ delim bnd ++ rest) -> clean bnd c ->
+  match read_stream p bnd with
+  | (Ready (IData ch), p') =>
+      ch <> [] /\ (exists c', c = ch ++ c') /\ p_buf p = ch ++ p_buf p' /\ p' = set_buf p (p_buf p')
+  | (Ready IEnd, p') => c = [] /\ p' = p /\ is_prefix (delim bnd) (p_buf p)
+  | (Ready (IErr e), p') => e = EIncomplete /\ p_eof p = true /\ p' = p
+  | (Pending, p') => p_eof p = false /\ p' = p
+  end.
+Proof. exact read_stream_step. Qed.
+
+(* Any schedule of arrivals (how the stream is cut into pieces), polls and end-of-stream:
+   the bytes delivered are a prefix of the content; when the end of the field is reported they
+   are EXACTLY the content and the buffer begins with the delimiter; an error is reported only
+   after end-of-stream. *)
+Theorem C15_scan_exact_any_schedule : forall (bnd : bytes) (acts : list act) (p : pb) (c rest : bytes),
+  is_prefix (p_buf p ++ arrived acts) (c ++ delim bnd ++ rest) -> clean bnd c ->
+  exists e, fst (fst (scan_exec bnd acts p [])) = e /\ is_prefix e c /\
+    (snd (fst (scan_exec bnd acts p [])) = Some IEnd ->
+       e = c /\ is_prefix (delim bnd) (p_buf (snd (scan_exec bnd acts p [])))) /\
+    (forall x, snd (fst (scan_exec bnd acts p [])) = Some (IErr x) ->
+       x = EIncomplete /\ p_eof (snd (scan_exec bnd acts p [])) = true).
+Proof.
+  intros bnd acts p c rest H1 H2.
+  destruct (scan_exec_exact bnd acts p [] c rest H1 H2) as (e & E). exists e. exact E.
+Qed.
+
+(* Segmentation independence of the delivered content: two schedules over the same stream
+   that both reach the end of the field delivered the same bytes. *)
+Theorem C15_scan_segmentation_independent :
+  forall (bnd c rest : bytes) (acts1 acts2 : list act) (limit : N),
+  clean bnd c ->
+  is_prefix (arrived acts1) (c ++ delim bnd ++ rest) ->
+  is_prefix (arrived acts2) (c ++ delim bnd ++ rest) ->
+  let r1 := scan_exec bnd acts1 (pb_new [] limit) [] in
+  let r2 := scan_exec bnd acts2 (pb_new [] limit) [] in
+  snd (fst r1) = Some IEnd -> snd (fst r2) = Some IEnd -> fst (fst r1) = fst (fst r2).
+Proof.
+  intros bnd c rest acts1 acts2 limit Hc H1 H2 r1 r2 E1 E2.
+  destruct (scan_exec_exact bnd acts1 (pb_new [] limit) [] c rest H1 Hc) as (e1 & A1 & _ & B1 & _).
+  destruct (scan_exec_exact bnd acts2 (pb_new [] limit) [] c rest H2 Hc) as (e2 & A2 & _ & B2 & _).
+  subst r1 r2. rewrite A1, A2. destruct (B1 E1) as [-> _]. destruct (B2 E2) as [-> _]. reflexivity.
+Qed.
+
+(* Completeness: with the content and its whole delimiter buffered, at most |c|+1 polls
+   deliver exactly c, report the end of the field and leave the delimiter in the buffer. *)
+Theorem C15_scan_complete : forall (bnd : bytes) (n : nat) (c : bytes) (p : pb) (tail : bytes),
+  p_buf p = c ++ delim bnd ++ tail -> clean bnd c -> (length c < n)%nat ->
+  exists p', scan_exec bnd (repeat PollScan n) p [] = (c, Some IEnd, p') /\
+             p_buf p' = delim bnd ++ tail.
+Proof. intros. apply (scan_complete bnd n c p [] tail); assumption. Qed.
+
+(* No hang (repaired code): a poll of the Multipart stream or of a Field returns Pending only
+   when a wake-up of the task is guaranteed (self-wake, or the upstream stream returned
+   Pending and therefore holds the waker). *)
+Theorem C15_no_hang_multipart : forall (hdr : bytes -> hres) (m : mp) (w : bool) (m' : mp),
+  mp_poll_next hdr false false false m = (Pending, w, m') -> w = true.
+Proof. exact mp_poll_no_hang. Qed.
+
+Theorem C15_no_hang_field : forall (m : mp) (w : bool) (m' : mp),
+  field_poll_next false false false m = (Pending, w, m') -> w = true.
+Proof. exact field_poll_no_hang. Qed.
+
+(* ... because poll_stream omits the wake-up only when it has just seen the end of the stream,
+   and after the end of the stream no parser function waits (C15_scan_one_poll_exact: Pending
+   only before eof). *)
+Theorem C15_poll_stream_wakes : forall (p p' : pb) (w : bool),
+  poll_stream false p = Ok (p', w) -> w = false -> p_eof p' = true.
+Proof. exact poll_stream_woken. Qed.
+
+(* Malformed delimiters yield Err, never a merged field: after a field, Inner::read_boundary
+   accepts exactly the line "--" boundary CRLF (another field follows) or "--" boundary "--"
+   [CRLF] (end); and the scanner never hands out bytes beyond the first delimiter
+   (C15_scan_exact_any_schedule), so no field spans two rendered fields. *)
+Theorem C15_boundary_line_exact : forall (p : pb) (bnd : bytes) (fin : bool) (p' : pb),
+  read_boundary p bnd = Ok (Some fin, p') ->
+  exists line, p_buf p = line ++ p_buf p' /\
+    if fin then line = DD ++ bnd ++ DD \/ line = DD ++ bnd ++ DD ++ CRLF
+    else line = DD ++ bnd ++ CRLF.
+Proof. exact read_boundary_exact. Qed.
+
+(* PayloadBuffer::poll_stream neither loses, duplicates nor reorders a byte, whatever the
+   chunking, the Pending pattern, the limit and the 16-chunk budget: buffer ++ held-back chunk
+   ++ rest of the stream is invariant, and the buffer only grows at its end (this is the
+   [Arrive] of the scanner theorems). *)
+Theorem C15_poll_stream_preserves_bytes : forall (o25 : bool) (p p' : pb) (w : bool),
+  poll_stream o25 p = Ok (p', w) ->
+  rest_of p' = rest_of p /\ exists added, p_buf p' = p_buf p ++ added.
+Proof. exact poll_stream_rest. Qed.
+
+(* The line and header-block reads (read_until: readline, boundary lines, header block) are
+   independent of the segmentation: once the needle is found, the chunk returned is the same
+   however much more of the stream has already arrived, and what is left is the rest plus
+   that surplus. *)
+Theorem C15_read_until_segmentation_independent :
+  forall (needle : bytes) (p : pb) (chunk : bytes) (p' : pb) (extra : bytes),
+  read_until needle p = Ok (Some chunk, p') ->
+  read_until needle (set_buf p (p_buf p ++ extra)) = Ok (Some chunk, set_buf p (p_buf p' ++ extra)).
+Proof. exact read_until_stable. Qed.
+
+(* End of a field: when the scanner has reported the end (the buffer begins with the delimiter,
+   C15_scan_exact_any_schedule), InnerField::poll consumes exactly the CRLF in front of
+   "--" boundary and finishes the field; the boundary line itself is left for read_boundary. *)
+Theorem C15_field_end_handoff : forall (f : ifield) (p : pb) (bnd tail : bytes),
+  p_buf p = delim bnd ++ tail ->
+  field_stage2 f p = (Ready IEnd, mkField false (f_eof f) (f_length f), set_buf p (DD ++ bnd ++ tail)).
+Proof. exact field_end_handoff. Qed.
+
+(* the class of valid contents is decidable (same predicate as the harness classifier) *)
+Theorem C15_clean_decidable : forall b c, cleanb b c = true -> clean b c.
+Proof. exact cleanb_clean. Qed.
+
+(* non-vacuity: boundary "ab", content  x CR LF - - a CR - - CR  (look-alikes of both kinds),
+   delivered bytewise with a poll after every byte, then the next field's line *)
+Example C15_example :
+  let bnd := [97; 98] in
+  let c := [120; 13; 10; 45; 45; 97; 13; 45; 45; 13] in
+  let stream := c ++ delim bnd ++ [13; 10; 88] in
+  let acts := flat_map (fun b => [Arrive [b]; PollScan]) stream in
+  clean bnd c /\ arrived acts = stream /\
+  fst (scan_exec bnd acts (pb_new [] 65536) []) = (c, Some IEnd).
+Proof. cbv zeta. split; [apply cleanb_clean; reflexivity|]. split; reflexivity. Qed.
